@@ -60,6 +60,11 @@ class PathRng:
     def choice(self, a, p=None, size=None):
         n = int(a) if isinstance(a, (int, np.integer)) else len(a)
         probs = np.full(n, 1.0 / n) if p is None else np.asarray(p, dtype=float)
+        if size is not None:
+            # `size` independent draws, each its own branch point
+            ks = [self._branch(n, probs) for _ in range(int(np.prod(size)))]
+            vals = np.array(ks if isinstance(a, (int, np.integer)) else [a[k] for k in ks])
+            return vals.reshape(size) if not isinstance(size, (int, np.integer)) else vals
         k = self._branch(n, probs)
         return k if isinstance(a, (int, np.integer)) else a[k]
 
